@@ -33,6 +33,7 @@ pub fn dispatch(prop: &str, cfg: &Cfg) -> Option<(Log, Meta)> {
     "C07" => c07::run(cfg),
     "C08" => c08::run(cfg),
     "C09" => c09::run(cfg),
+    "C10" => c10::run(cfg),
     "C11" => c11::run(cfg),
     "C12" => c12::run(cfg),
     "C13" => c13::run(cfg),
